@@ -1251,7 +1251,7 @@ def _kymo_from_image_stack(
         raise ValueError("The requested number of `adjacent_lines` must not be negative.")
     # A tether end left of the (cropped) image must not turn into a negative, wrapping index
     xmin = max(int(np.floor(x1)), 0)
-    xmax = int(np.floor(x2)) + 1
+    xmax = max(int(np.floor(x2)) + 1, 0)
     ymin = int(np.floor(y1)) - adjacent_lines
     ymax = int(np.floor(y2)) + adjacent_lines + 1
     if ymin < 0 or ymax > stack.shape[1]:
